@@ -437,7 +437,59 @@ class Analysis(object):
                                         'text': 'variable-length stack object sized by a wire value (%s) without a range check'
                                         % ', '.join(sorted(lab))})
             self._loop_strides(fname, fn, info, out)
+            self._use_after_free(fname, fn, info, out)
         return out
+
+    def _derived(self, info, root):
+        """SSA values that are `root` plus constant address arithmetic / casts"""
+        seen = {root}
+        changed = True
+        while changed:
+            changed = False
+            for d, ins in info.defs.items():
+                if d in seen:
+                    continue
+                if ins.op in ('getelementptr', 'bitcast', 'addrspacecast') and ins.args and ins.args[0][1][0] == 'r' and \
+                        ins.args[0][1][1] in seen:
+                    seen.add(d)
+                    changed = True
+        return seen
+
+    def _use_after_free(self, fname, fn, info, out):
+        """K6: a pointer handed to free() must not be dereferenced at a point the free() dominates (same SSA value,
+        so the same dynamic object): the STAILQ_FOREACH + free idiom, double frees, stale accesses"""
+        for b in fn.order:
+            for idx, ins in enumerate(fn.blocks[b]):
+                if ins.op != 'call' or callee_name(ins) != 'free' or not ins.args or ins.args[0][1][0] != 'r':
+                    continue
+                root = ins.args[0][1][1]
+                # look through the cast that precedes free(void*)
+                rdef = info.defs.get(root)
+                roots = {root}
+                while rdef is not None and rdef.op in ('bitcast', 'addrspacecast') and rdef.args[0][1][0] == 'r':
+                    roots.add(rdef.args[0][1][1])
+                    rdef = info.defs.get(rdef.args[0][1][1])
+                der = set()
+                for r0 in roots:
+                    der |= self._derived(info, r0)
+                for b2 in fn.order:
+                    for idx2, use in enumerate(fn.blocks[b2]):
+                        after = (b2 == b and idx2 > idx) or (b2 != b and info.dominates(b, b2))
+                        if not after:
+                            continue
+                        ptrs = []
+                        if use.op == 'load':
+                            ptrs = [use.args[0]]
+                        elif use.op == 'store':
+                            ptrs = [use.args[1]]
+                        elif use.op == 'call' and callee_name(use) == 'free':
+                            ptrs = [use.args[0]]
+                        for (t, v) in ptrs:
+                            if v[0] == 'r' and v[1] in der:
+                                out.append({'kind': 'use-after-free', 'fn': fname, 'loc': self.loc(use), 'labels': [],
+                                            'text': 'object released by free() at line %s is %s afterwards on every path through that free()'
+                                            % (self.loc(ins)[1], 'freed again' if use.op == 'call' else 'accessed')})
+                                break
 
     def _call_sinks(self, fname, block, ins, out):
         mod = self.mod
